@@ -88,7 +88,7 @@ async fn run_storm(a: &Args, m: &mut mon::Mon) {
                     }
                 }
             }
-            if matches!(a.prop.as_str(), "C16" | "C02") && k % 500 == 200 {
+            if matches!(a.prop.as_str(), "C16" | "C02" | "C03") && k % 500 == 200 {
                 // a liquidation by a fresh account of the liquidator's wallet: it takes positions on in
                 // banks it did not hold (two look-ups on one account inside one instruction)
                 w.refresh_oracles();
@@ -130,6 +130,28 @@ async fn run_storm(a: &Args, m: &mut mon::Mon) {
                                     }
                                 }
                             }
+                            {
+                                // a fourth one with a small deposit in the debt bank: the debt it takes
+                                // over first eats that deposit and the remainder becomes its own debt
+                                let lq4 = w.add_account(g, lu).await;
+                                let small = storm::pick(&mut r, &[1u64, 100, 10_000]);
+                                let i = w.ix_deposit_any(lq4, db, lk.pubkey(), w.ta_of(lq4, db), small);
+                                let mut ok4 = w.exec(m, &[i], &[&lk]).await.ok();
+                                if ok4 {
+                                    // collateral of its own, so that it stays healthy with the new debt
+                                    let i = w.ix_deposit_any(lq4, ca, lk.pubkey(), w.ta_of(lq4, ca), 1 << 34);
+                                    ok4 = w.exec(m, &[i], &[&lk]).await.ok();
+                                }
+                                if ok4 {
+                                    for amt in [20_000u64, 1_000_000, 50_000_000] {
+                                        let i = w.ix_liquidate_x(lq4, lev.acct, ca, db, lk.pubkey(), amt, None);
+                                        let o = w.exec(m, &[i], &[&lk]).await;
+                                        if o.ok() {
+                                            m.r.count("scen.liquidations_by_holder_of_a_small_deposit_in_the_debt_bank");
+                                        }
+                                    }
+                                }
+                            }
                             if only_ca {
                                 for d in [None, Some(ca), Some(db)] {
                                     let i = w.ix_liquidate_x(lq2, lev.acct, ca, db, lk.pubkey(), storm::pick(&mut r, &[1u64, 1000]), d);
@@ -162,6 +184,10 @@ async fn run_storm(a: &Args, m: &mut mon::Mon) {
                         }
                     }
                 }
+            }
+            if k == 1200 && matches!(a.prop.as_str(), "C02" | "C16" | "ALL") {
+                w.refresh_oracles();
+                scen::slot_saturation(&mut w, m, &mut r, s.g, s.liquidator).await;
             }
             if k % 500 == 50 && matches!(a.prop.as_str(), "C02" | "ALL") {
                 w.refresh_oracles();
@@ -202,6 +228,7 @@ async fn run_scen(a: &Args, m: &mut mon::Mon) {
         let rounds = if a.tier == "thorough" { 40 } else { 12 };
         if a.prop == "C05" {
             scen::flat_liquidation(&mut w, m, &mut r, g, lq).await;
+            scen::emode_liquidator(&mut w, m, &mut r, g, lq).await;
         }
         for _ in 0..rounds {
             if t0.elapsed() >= a.budget {
@@ -262,6 +289,9 @@ async fn run_scen(a: &Args, m: &mut mon::Mon) {
                     scen::receivership(&mut w, m, &mut r, &lev, ru).await
                 }
                 _ => {
+                    if r.gen_bool(0.4) {
+                        scen::reduce_only_probe(&mut w, m, &mut r, &lev, g).await;
+                    }
                     // C04: also locate the withdraw boundary of the collateral
                     let auth = w.auth_of(lev.acct);
                     let (acct, ca) = (lev.acct, lev.ca);
@@ -353,6 +383,10 @@ async fn run_admin(a: &Args, m: &mut mon::Mon) {
             }
             if k % 100 == 60 && a.prop == "C18" {
                 admin::legacy_curve_migration(&mut w, m, &mut r, g).await;
+            }
+            if k % 200 == 150 && a.prop == "C08" {
+                w.refresh_oracles();
+                scen::tokenless_stranger(&mut w, m, &mut r, g, s.liquidator).await;
             }
             if k % 120 == 90 && a.prop == "C19" {
                 admin::fee_wallet_rotation(&mut w, m, &mut r, g).await;
